@@ -731,6 +731,7 @@ type Engine struct {
 	notes        []string // havoc-by-default calls etc.
 	noteSeen     map[string]bool
 	trustedUsed  map[string]bool
+	contractsUsed map[string]bool
 	curUnit      *Unit
 	pureDepth    int
 	specDepth    int
@@ -759,7 +760,7 @@ func newEngine(w *World, unit string) *Engine {
 	return &Engine{
 		w: w, ctx: smt.NewCtx(), leafCache: map[string][]Leaf{}, strLits: map[string]smt.Term{},
 		typeTags: map[string]int{}, heapKeys: map[string]heapKey{}, unitName: unit,
-		globalsDone: map[*ssa.Global]bool{}, maxPaths: 4096, noteSeen: map[string]bool{}, trustedUsed: map[string]bool{},
+		globalsDone: map[*ssa.Global]bool{}, maxPaths: 4096, noteSeen: map[string]bool{}, trustedUsed: map[string]bool{}, contractsUsed: map[string]bool{},
 		fnConsts: map[string]bool{}, implIfaces: map[string]bool{}, fnIDs: map[string]int{}, cells: map[*ssa.Alloc]Value{},
 		pureMemo: map[string]Value{}, sawCallSite: map[*spec.CallSite]bool{}, nonNilDone: map[string]bool{}, dynDone: map[string]bool{}, zeroArrDone: map[string]bool{}, started: time.Now(), budget: 90 * time.Second,
 	}
